@@ -92,6 +92,7 @@ type runOpts struct {
 	limits   runtime.CoreLimits
 	treeCall uint
 	ast      bool
+	asm      bool
 	entry    string
 	timeout  time.Duration
 }
@@ -220,6 +221,8 @@ func parseRun(line string) (map[string]string, runOpts, error) {
 			o.treeCall = uint(it.Arg(0).Int())
 		case "ast":
 			o.ast = it.Arg(0).Bool()
+		case "asm":
+			o.asm = it.Arg(0).Bool()
 		case "entry":
 			o.entry = it.Arg(0).Str()
 		case "timeout":
@@ -255,6 +258,9 @@ func runLine(line string) string {
 				parts = append(parts, "TREE="+runTree(analyzed, o))
 			}
 		}
+		if o.asm {
+			parts = append(parts, "ASM="+asmDump(analyzed))
+		}
 		if o.ast {
 			parts = append(parts, "AST="+sxModules(analyzed).String())
 		}
@@ -262,4 +268,34 @@ func runLine(line string) string {
 	return strings.Join(parts, " | ")
 }
 
-var _ = sort.Strings
+// asmDump: the instruction stream of the real compiler, one function per block, in the
+// textual form of Instruction.String() (cast instructions without their type).
+func asmDump(analyzed map[string]aast.AnalyzedProgram) (res string) {
+	defer func() {
+		if r := recover(); r != nil {
+			res = "PANIC " + hexs(firstLine(fmt.Sprint(r)))
+		}
+	}()
+	c := compiler.NewCompiler(analyzed, "main")
+	prog, err := c.Compile()
+	if err != nil {
+		return "COMPILE-ERROR " + hexs(err.Error())
+	}
+	names := []string{}
+	for n := range prog.Functions {
+		names = append(names, n)
+	}
+	sort.Strings(names)
+	var b strings.Builder
+	for _, n := range names {
+		fmt.Fprintf(&b, "FN %s\n", n)
+		for _, ins := range prog.Functions[n] {
+			if ci, ok := ins.(compiler.CastInstruction); ok {
+				fmt.Fprintf(&b, "Cast(perform_cast=%t)\n", ci.AllowCast)
+			} else {
+				b.WriteString(ins.String() + "\n")
+			}
+		}
+	}
+	return hexs(b.String())
+}
